@@ -8,8 +8,8 @@ const trusted = "Trusted base: go/types, go/ssa and the CHA/VTA call graphs of g
 func init() {
 	property(&Property{
 		ID:      "C07",
-		Rules:   []string{"ET-1", "ET-2", "ET-3", "XF-H", "XF-1", "XF-2", "XF-3", "NR-1", "LB-const", "SX-crash-json", "SX-crash-schema", "SX-crash-enum", "SX-crash-schema-deep"},
-		Explain: "Decides the structural clauses of C07 on the current tree: (ET) every errors.Format call site passes exactly as many arguments as its template has verbs, every ErrorCode used bare as an error value has a zero-verb template, every declared code has a template (the last sentence of the property, decided completely over all construction sites). (SX-crash) the transition relation of each of the three byte scanners is extracted from its Next() method by abstract interpretation of the SSA and explored breadth-first over every reachable abstract state (bounded stack depth / node cap) x all 256 byte values x end of input, following look-ahead reads with every possible following byte and with the input ending inside the look-ahead window: no transition may fail with anything but a positioned library error (no index out of range, no assertion panic, no unstructured error). (XF) exception flow: the explicit panic sites of the library (classified by the static type of the value) and the implicit ones (slice/string index and slice expressions that no dominating length test or range loop guards, type assertions without ok, integer division) are propagated bottom-up over the call graph through the recover handlers, whose transfer functions (absorb / re-raise / convert to DocumentError) are derived by interpreting each handler's own code on one representative value per class; XF-1: no value escapes any exported function of the API packages, except reviewed invariant assertions and reviewed in-range arguments (one line of reason each); XF-2: the API-level handlers turn only positioned errors into returned errors; XF-3: no bare error code is returned as an error value on a path reachable from the API. NR-1: the possibly empty root node is nil-checked before use in every API-layer function. LB-const: every constant-index read of a slice/string is dominated by a length test or reviewed.",
+		Rules:   []string{"ET-1", "ET-2", "ET-3", "XF-H", "XF-1", "XF-2", "XF-3", "NR-1", "LB-const", "SX-crash-json", "SX-crash-schema", "SX-crash-enum", "SX-crash-schema-deep", "OR-4", "NR-2"},
+		Explain: "OR-4: recursion along user-type references is guarded, so a cycle of references cannot end in a stack overflow (a fatal error no handler stops). NR-2: a caller-supplied Schema is added as a type only after a test that it has a root node, so no added type can make the checker or validators dereference nil. Decides the structural clauses of C07 on the current tree: (ET) every errors.Format call site passes exactly as many arguments as its template has verbs, every ErrorCode used bare as an error value has a zero-verb template, every declared code has a template (the last sentence of the property, decided completely over all construction sites). (SX-crash) the transition relation of each of the three byte scanners is extracted from its Next() method by abstract interpretation of the SSA and explored breadth-first over every reachable abstract state (bounded stack depth / node cap) x all 256 byte values x end of input, following look-ahead reads with every possible following byte and with the input ending inside the look-ahead window: no transition may fail with anything but a positioned library error (no index out of range, no assertion panic, no unstructured error). (XF) exception flow: the explicit panic sites of the library (classified by the static type of the value) and the implicit ones (slice/string index and slice expressions that no dominating length test or range loop guards, type assertions without ok, integer division) are propagated bottom-up over the call graph through the recover handlers, whose transfer functions (absorb / re-raise / convert to DocumentError) are derived by interpreting each handler's own code on one representative value per class; XF-1: no value escapes any exported function of the API packages, except reviewed invariant assertions and reviewed in-range arguments (one line of reason each); XF-2: the API-level handlers turn only positioned errors into returned errors; XF-3: no bare error code is returned as an error value on a path reachable from the API. NR-1: the possibly empty root node is nil-checked before use in every API-layer function. LB-const: every constant-index read of a slice/string is dominated by a length test or reviewed.",
 		Assume: []string{
 			"termination of the API calls is not decided",
 			"nil dereferences other than the root-node rule, map writes to nil maps and stack exhaustion are not modelled as panic sources",
@@ -37,7 +37,7 @@ func init() {
 	})
 	property(&Property{
 		ID:      "C06",
-		Rules:   []string{"SA-J", "SA-S", "SA-E", "T-enum", "SA-J3"},
+		Rules:   []string{"SA-J", "SA-S", "SA-E", "T-enum", "SA-J3", "SA-S-deep", "SA-E-deep"},
 		Explain: "Same product as C05, comparing in addition the lexical events: on every byte and at end of input the formats/json scanner model must emit exactly the events of the reference transducer (types, order, and spans written relative to the consumed byte and to the begin offsets of the open events): literal/key spans = the source token, container spans from opening to closing bracket, wrappers closed on the first byte after the value. SA-S / SA-E run the same product against the schema scanner and the enum-rule scanner restricted to plain JSON input: every byte the reference accepts must be accepted with the same events (new-line events dropped; exponents, and for enum rules non-array roots and nested containers, are documented deviations; duplicate detection of the enum scanner abstracted).",
 		Assume: []string{
 			"rebuilding the JSON value from the events is not decided (content is symbolic)",
@@ -51,7 +51,7 @@ func init() {
 	})
 	property(&Property{
 		ID:      "C13",
-		Rules:   []string{"SX-nl-schema", "SX-nl-enum", "SX-sp-schema", "SX-sp-enum", "NC-1", "SX-comment-schema"},
+		Rules:   []string{"SX-nl-schema", "SX-nl-enum", "SX-sp-schema", "SX-sp-enum", "NC-1", "SX-comment-schema", "SX-nl-schema-deep", "SX-sp-schema-deep", "SX-comment-schema-deep"},
 		Explain: "SX-comment-schema: in every reachable comment state of the schema scanner a byte either delivers no lexical event or leaves the comment, so comments are invisible to the loader (line and node counting). Over the automaton extracted from the schema scanner and the enum-rule scanner (abstract interpretation of Next(), every reachable abstract state up to the stack bound / node cap): LF and CR have identical effect in every state (verdict, events with spans, successor state), so LF, CR and CRLF spellings scan alike; space and tab have identical effect in every state outside content states (string bodies, annotation/comment text, bare rule names — listed with reasons), so indentation style does not change the scan. NC-1: every comparison of a lexeme's text with a rule name (enum, type, or, the names in the rule constructor table) is made on the unquoted text, so quoted and bare rule names are equivalent.",
 		Assume: []string{
 			"comment placement, inline versus multi-line annotation equivalence, quoted versus bare rule names, rule order and escape normalisation are not decided by these rules",
@@ -64,7 +64,7 @@ func init() {
 	})
 	property(&Property{
 		ID:      "C14",
-		Rules:   []string{"LEN-trim", "LEN-json", "LEN-schema", "LEN-enum"},
+		Rules:   []string{"LEN-trim", "LEN-json", "LEN-schema", "LEN-enum", "LEN-json-deep", "LEN-schema-deep", "LEN-enum-deep"},
 		Explain: "LEN-trim reads off each Length() method's own code (abstract interpretation with Next() replaced by a staged oracle delivering symbolic lexemes) what it holds before trimming — End of the last lexeme + k, and what the end-top marker does to it — and that the trimming loop steps back over blank bytes one at a time from data[P-1]. LEN-json / LEN-schema / LEN-enum walk the product of the scanner model extracted from Next() in length mode with the RFC 8259 reference transducer in trailing mode, for every byte value in every reachable state pair up to nesting 2, carrying as ghost state where the top-level value ended (V), where the first foreign byte is (F) and the value Length() would hold (G), as offsets from the byte just consumed. Wherever the scan can stop — the end-top marker (foreign byte directly after the value, after blanks, or one byte late), or end of input — V+1 <= G <= F must hold, so that trimming lands exactly on the length of the value; a text cut short inside a value must yield an error, and a foreign byte after a complete value must not.",
 		Assume: []string{
 			"the embedded text is plain JSON (values, arrays of scalars for enums): annotations, comments, type shortcuts and other JSight-only syntax after or inside the schema are not walked by this product (annotation and comment starters are not treated as foreign bytes)",
@@ -79,7 +79,7 @@ func init() {
 	})
 	property(&Property{
 		ID:      "C17",
-		Rules:   []string{"SX-pos-json", "SX-pos-schema", "SX-pos-enum", "LB-render", "XF-render"},
+		Rules:   []string{"SX-pos-json", "SX-pos-schema", "SX-pos-enum", "LB-render", "XF-render", "SX-pos-schema-deep"},
 		Explain: "Over the automata extracted from the three scanners: every rejecting transition (any byte in any reachable abstract state, and end of input) produces a DocumentError on which SetIndex was called and whose index is the offset of the byte just consumed (the last byte of the input when it ends early) — the position is symbolic in the model, so this holds for all inputs reaching the state. LB-render: the renderer stays inside the file content — preparation() brings a position outside the content back inside it, every renderer method that indexes the content first returns on empty content and calls preparation() (dominance), the line helpers are only called after it, and the count given to strings.Repeat is provably non-negative. XF-render: no panic (explicit, or an index/slice expression outside the recognised guards and the reviewed in-range table, which is keyed by the operand expressions) can escape an exported function of package errors.",
 		Assume: []string{
 			"that the rejecting byte is the *first* byte that cannot continue the text follows from C05's language equivalence for JSON documents only",
@@ -121,8 +121,8 @@ func init() {
 	})
 	property(&Property{
 		ID:      "C02",
-		Rules:   []string{"T3", "T4", "T6", "T9", "T14", "T-cmp", "T-enum"},
-		Explain: "T3: Min/Max.Validate accept a probe iff probe >= min (> when exclusive) / probe <= max (< when exclusive) for all orderings and flag values, the probe being the parsed document number and the bound the rule's own number (exact comparison Number.Cmp is an ordering atom; the five comparison helpers are interpreted). T4: minLength/maxLength compare the length of the decoded string, minItems/maxItems the child count, precision the number of fractional digits of the parsed number, with the right comparator for every ordering. T6: a true exclusiveMinimum/Maximum makes exactly the matching bound exclusive, a false one is inert, the helper rule is removed. T9: nullable:false and const:false are removed by the compiler's filter and nothing else is; Const.Validate is inert when false and compares with the example when true. T14: ValidateLiteralValue runs every literal rule of the node exactly once on the document literal, except that a null admitted by nullable:true is accepted without running any other rule.",
+		Rules:   []string{"T3", "T4", "T6", "T9", "T14", "T-cmp", "T-enum", "T-formats"},
+		Explain: "T-formats: the regex rule accepts iff an RE2 search in the decoded string succeeds; date and datetime accept iff time.Parse with the layouts 2006-01-02 / RFC 3339 accepts the decoded string; uri, email and uuid accept only after their parser accepted the decoded string. T3: Min/Max.Validate accept a probe iff probe >= min (> when exclusive) / probe <= max (< when exclusive) for all orderings and flag values, the probe being the parsed document number and the bound the rule's own number (exact comparison Number.Cmp is an ordering atom; the five comparison helpers are interpreted). T4: minLength/maxLength compare the length of the decoded string, minItems/maxItems the child count, precision the number of fractional digits of the parsed number, with the right comparator for every ordering. T6: a true exclusiveMinimum/Maximum makes exactly the matching bound exclusive, a false one is inert, the helper rule is removed. T9: nullable:false and const:false are removed by the compiler's filter and nothing else is; Const.Validate is inert when false and compares with the example when true. T14: ValidateLiteralValue runs every literal rule of the node exactly once on the document literal, except that a null admitted by nullable:true is accepted without running any other rule.",
 		Assume: []string{
 			"correctness of Number.Cmp's digit arithmetic, of string decoding, and of the regex/e-mail/URI/UUID/date predicates (standard library) is not decided",
 			"enum membership on decoded values is not decided",
@@ -232,8 +232,8 @@ func init() {
 	})
 	property(&Property{
 		ID:      "C09",
-		Rules:   []string{"UC-1", "OR-2", "VIS-collect", "OR-3"},
-		Explain: "OR-3: the used-type list is read off the loaded tree inside the once-only loader, before CompileBasic, on every call chain that reaches the walk. VIS-*: the recursive walks (schema checker, allOf compiler, used-type collector) and the loops over the type table reach every child and every type — the visiting call is on every path through the loop body and the loop on every path to a normal return, the only bypasses being a failed comma-ok test and loop exhaustion. UC-1: in the functions reachable from the used-type collector and from the link checker (callback-aware call graph), each carrier of a user-type reference is consulted: the types list (type shortcuts, or), the type rule, allOf, additionalProperties with a user type, key shortcuts and mixed shortcut values; allOf parents are resolved against the type table when inherited properties are copied.",
+		Rules:   []string{"UC-1", "OR-2", "VIS-collect", "OR-3", "OR-4"},
+		Explain: "OR-4: wherever a function resolves a user type through a type table and descends into it with a call that can come back, a lookup in a visited set or counter dominates the descent (a cycle of type references would otherwise overflow the stack). OR-3: the used-type list is read off the loaded tree inside the once-only loader, before CompileBasic, on every call chain that reaches the walk. VIS-*: the recursive walks (schema checker, allOf compiler, used-type collector) and the loops over the type table reach every child and every type — the visiting call is on every path through the loop body and the loop on every path to a normal return, the only bypasses being a failed comma-ok test and loop exhaustion. UC-1: in the functions reachable from the used-type collector and from the link checker (callback-aware call graph), each carrier of a user-type reference is consulted: the types list (type shortcuts, or), the type rule, allOf, additionalProperties with a user type, key shortcuts and mixed shortcut values; allOf parents are resolved against the type table when inherited properties are copied.",
 		Assume: []string{
 			"the recursion decision (a least fix-point over arbitrary type graphs), termination of Check/Validate/Example, and exactness/de-duplication of UsedUserTypes are NOT decided by any rule here",
 		},
@@ -244,7 +244,7 @@ func init() {
 	})
 	property(&Property{
 		ID:      "C18",
-		Rules:   []string{"SH-2", "T-enum", "SA-E", "AL-2"},
+		Rules:   []string{"SH-2", "T-enum", "SA-E", "AL-2", "SA-E-deep"},
 		Explain: "AL-2: the value list a named enum rule hands out (Values) is not rewritten by the loader that copies it into {enum: @E}. SH-2: inline enum lists and named enum rules insert their items through the same constraint.NewEnumItem / (*Enum).Append (shared normalisation and duplicate rejection), and the enum-rule scanner's duplicate key uses the same normalisation steps. SA-E: the enum-rule scanner accepts exactly RFC 8259 arrays of scalars (exponents aside) with the reference event stream, so Values lists the literals in source order with exact spans.",
 		Assume: []string{
 			"the regex half (Go %q quoting when a regex type is turned into a schema, the third-party example generator, Len of the /P/ token) and the verdict equivalence itself are not decided",
